@@ -65,6 +65,12 @@ CORPUS = [
     # a ChainMap whose first layer creates missing keys on lookup
     ("collections.ChainMap(collections.defaultdict(int, {'a': 5}), {'a': 1, 'b': 2, 'c': 3})", {}),
     ("[collections.defaultdict(list, {'k': [1]}), collections.Counter({'x': 2})]", {}),
+    # comments: a text with whitespace-only lines (from an indented triple-quoted string), and one that has to be wrapped
+    ("trailing_comment([1, 2], '\\n    and more\\n    ')", {}),
+    ("comment([1, 2, 3], 'a rather long comment text that has to be wrapped over several lines when it is printed')", {'width': 40}),
+    # an OrderedDict whose insertion order is not its sorted order, printed with sorting on / off
+    ("collections.OrderedDict([('b', 1), ('a', [2]), ('c', 3)])", {'sort_dict_keys': True}),
+    ("[collections.OrderedDict([('b', 1), ('a', [2]), ('c', 3)])]", {}),
     # a value whose nested element can be made to fail (action F prints it with the failure armed)
     ("{'k': [vf.props.c19.FLAKY, 1], 'other': (2, [3])}", {}),
 ]
